@@ -21,7 +21,7 @@ def run(ctx, replay=None):
                 how = 'trf'
             nug_given = rng.choice([None, 0.0, 0.375, 2.0])
             cases.append({'seed': rng.randrange(10 ** 6), 'model': mname, 'how': how, 'use_nugget': rng.choice([False, True]), 'fit_sigma': rng.choice([None, None, 'linear', 'sqrt', 'exp']),
-                          'n_lags': rng.randint(6, 12), 'manual': {'range': rng.choice([10.0, 25.5, 60.0]), 'sill': rng.choice([1.0, 40.0]), 'nugget': nug_given,
+                          'n_lags': rng.randint(6, 12), 'toggle': rng.random() < 0.3, 'manual': {'range': rng.choice([10.0, 25.5, 60.0]), 'sill': rng.choice([1.0, 40.0]), 'nugget': nug_given,
                                                                    'shape': rng.choice([0.5, 1.5, 2.0])}})
         for case in cases:
             import random
@@ -30,10 +30,17 @@ def run(ctx, replay=None):
             ctx.count('model', mname)
             ctx.count('how', how)
             ctx.count('use_nugget', case['use_nugget'])
+            ctx.count('nugget_toggled_in_place', bool(case.get('toggle')) and how in ('trf', 'lm'))
             kw = dict(model=mname, n_lags=case['n_lags'], use_nugget=case['use_nugget'], fit_sigma=case['fit_sigma'])
             man = case['manual']
             try:
-                if how in ('trf', 'lm'):
+                if how in ('trf', 'lm') and case.get('toggle'):
+                    # the nugget setting is switched on the living instance and the variogram fitted again
+                    V = Variogram(c, v, fit_method=how, **dict(kw, use_nugget=not case['use_nugget']))
+                    _ = V.parameters
+                    V.use_nugget = case['use_nugget']
+                    V.fit(force=True)
+                elif how in ('trf', 'lm'):
                     V = Variogram(c, v, fit_method=how, **kw)
                 elif how == 'manual_kw':
                     mk = dict(fit_range=man['range'], fit_sill=man['sill'])
@@ -116,10 +123,15 @@ def run(ctx, replay=None):
                 if not tol(want_d, par):
                     ctx.problem('oracle', 'describe() and parameters report different values', case, {'describe': want_d, 'parameters': par})
                 if not use_n and (d['nugget'] != 0 or par[-1] != 0 or float(V.fitted_model(0.0)) != 0.0):
-                    ctx.problem('oracle', 'nugget disabled but the reported nugget / the model at lag 0 is not 0', case, {'nugget': d['nugget'], 'model0': float(V.fitted_model(0.0))}, {'what': 'nugget-disabled'})
+                    neg = how == 'lm' and float(d['effective_range']) < 0
+                    ctx.problem('oracle', 'nugget disabled but the reported nugget / the model at lag 0 is not 0', case, {'nugget': d['nugget'], 'model0': float(V.fitted_model(0.0)), 'cof': cof},
+                                {'what': 'nugget-disabled', 'fit': 'lm-negative-range' if neg else how})
             else:
                 if not use_n and float(V.fitted_model(0.0)) != 0.0:
-                    ctx.problem('oracle', 'nugget disabled but the sum model at lag 0 is not 0', case, {'model0': float(V.fitted_model(0.0))}, {'what': 'nugget-disabled'})
+                    # the unbounded 'lm' method can return a negative range: the bounded-range models then return their sill at lag 0
+                    neg = how == 'lm' and any(float(d.get('effective_range_%d' % (i_ + 1), 1.0)) < 0 for i_ in range(len(mname.split('+'))))
+                    ctx.problem('oracle', 'nugget disabled but the sum model at lag 0 is not 0', case, {'model0': float(V.fitted_model(0.0)), 'cof': cof},
+                                {'what': 'nugget-disabled', 'fit': 'lm-negative-range' if neg else how})
                 names = mname.split('+')
                 rep = 0.0
                 ok_sum = True
